@@ -149,7 +149,8 @@ def family_doc(shape, asg, P, prefer, serial=0):
           nd[name] = expr(val * u, P, prefer)
           total += val
   # grid: every half unit from 0 to one unit past the sum of all attribute values (a bound on every boundary)
-  times = [k * (u // 2) for k in range(0, 2 * total + 3)]
+  # and one base tick before every whole unit (an interval that is a fraction of a frame too early shows there)
+  times = sorted(set([k * (u // 2) for k in range(0, 2 * total + 3)] + [k * u - 1 for k in range(1, total + 2)]))
   return doc, times
 
 
@@ -347,7 +348,7 @@ def gen_rich(rng, P, serial=0):
   pts = set([0, top])
   k = 14
   pts.update(rng.sample(range(0, top + 1), min(k, top + 1)))
-  times = [p * (g // 2) for p in sorted(pts)]
+  times = sorted(set([p * (g // 2) for p in pts] + [p * (g // 2) - 1 for p in pts if p > 0 and p % 2 == 0]))
   return doc, times, prefer
 
 
